@@ -88,14 +88,20 @@ pub fn set_stale_access_hook(hook: Option<fn()>) {
     STALE_HOOK.store(hook.map_or(0, |f| f as usize), Relaxed);
 }
 
+/// The word every byte of which is the poison pattern.
+pub const POISON_WORD: usize = usize::from_ne_bytes([0xA5; mem::size_of::<usize>()]);
+
+/// Called by the link table accessor with a pointer to the first word of the
+/// `links` field: if the field carries the poison pattern its contents have been
+/// moved out (or dropped in place) and this access is stale.
 #[inline]
-pub(crate) fn on_links_access(strong: usize) {
-    if strong == usize::MAX {
+pub(crate) unsafe fn on_links_access(first_word: *const usize) {
+    if first_word.read() == POISON_WORD {
         bump(&STALE_ACCESS, 1);
         let hook = STALE_HOOK.load(Relaxed);
         if hook != 0 {
             // SAFETY: only `set_stale_access_hook` stores here, and only `fn()`.
-            let hook: fn() = unsafe { mem::transmute(hook) };
+            let hook: fn() = mem::transmute(hook);
             hook();
         }
     }
